@@ -2,6 +2,7 @@ import TuModel.Drive.TextD
 import TuModel.Drive.EditD
 import TuModel.Drive.MatchD
 import TuModel.Drive.WindowsD
+import TuModel.Drive.TokD
 open Tu.Drive
 
 def handle (line : String) : String :=
@@ -11,7 +12,7 @@ def handle (line : String) : String :=
     match rest.mapM String.toNat? with
     | none => "bad-request"
     | some args =>
-      match (((textD op args).orElse (fun _ => editD op args)).orElse (fun _ => matchD op args)).orElse (fun _ => windowsD op args) with
+      match ((((textD op args).orElse (fun _ => editD op args)).orElse (fun _ => matchD op args)).orElse (fun _ => windowsD op args)).orElse (fun _ => tokD op args) with
       | some r => r
       | none => "unknown-op"
 
